@@ -63,6 +63,7 @@ type exchange struct {
 	Pat     []int   `json:"read_sizes"`
 	Opened  cfg     `json:"opened_under,omitempty"` // live client: settings at its first exchange
 	Nth     int     `json:"exchanges_before,omitempty"`
+	After   string  `json:"previous_exchange,omitempty"` // what the previous exchange on the connection was answered with
 	LiveKey string  `json:"live_client_key,omitempty"`
 	Live    bool    `json:"live_client,omitempty"`               // one client per stack whose settings are toggled between exchanges
 	Via     string  `json:"via,omitempty"`                       // "h3-stream-body" / "h3-stream-read": the http3 request-stream API (res.Body / RequestStream.Read)
@@ -180,6 +181,43 @@ func (w *world) liveClient(key string, c cfg) *req.Client {
 func (w *world) cloneLive(parentKey, key string, c cfg) {
 	p := w.live[parentKey]
 	w.live[key] = &liveState{cl: p.cl.Clone(), opened: c}
+}
+
+// prime: an exchange on a live client that only prepares the connection for the next one (its response is
+// read to the end and closed, not judged): e.g. a plain GET answered without a body.
+func (w *world) prime(key string, c cfg, method string, s *script) {
+	w.xn++
+	xid := fmt.Sprintf("%d", w.xn)
+	done := make(chan struct{})
+	go func() {
+		defer close(done)
+		defer func() { recover() }()
+		cl := w.liveClient(key, c)
+		stack := strings.SplitN(key, "/", 2)[0]
+		hr, err := http.NewRequest(method, w.o.url(stack, s.ID, xid), nil)
+		if err != nil {
+			return
+		}
+		resp, err := cl.GetTransport().RoundTrip(hr)
+		if err != nil {
+			return
+		}
+		if resp.Body != nil {
+			io.Copy(io.Discard, resp.Body)
+			resp.Body.Close()
+		}
+	}()
+	select {
+	case <-done:
+	case <-time.After(w.watchdog()):
+		w.hangs++
+	}
+	w.o.mu.Lock()
+	delete(w.o.seen, xid)
+	w.o.mu.Unlock()
+	if ls := w.live[key]; ls != nil {
+		ls.n++
+	}
 }
 
 // do performs one exchange on the real code, contained (panic / hang -> Fatal).
